@@ -45,6 +45,7 @@ func init() {
 			{ID: "C05.S6", Alias: "C04.R6"},
 			{ID: "C05.S7", Alias: "C03.R4"},
 			{ID: "C05.S8", Alias: "C03.R5"},
+			{ID: "C05.S9", Doc: "the reader is released (pdone) for every packet NewServerStream received, also when creating the stream fails after termination: otherwise the reader never exits and Close hangs", Alias: "C06.R5"},
 		},
 	})
 }
@@ -262,7 +263,7 @@ func c05r5(c *an.Ctx) {
 		{"drpcmanager", "(*Manager).acquireSemaphore"}, {"drpcmanager", "(*Manager).waitForPreviousStream"},
 		{"drpcmanager", "(*Manager).newStream"}, {"drpcmanager", "(*Manager).NewClientStream"}, {"drpcmanager", "(*Manager).NewServerStream"},
 	} {
-		if x[1] == "(*Manager).waitForPreviousStream" || x[1] == "(*Stream).checkRecvFlush" {
+		if x[1] == "(*Manager).waitForPreviousStream" || x[1] == "(*Stream).checkRecvFlush" || x[1] == "(*Stream).rawWriteLocked" || x[1] == "(*Stream).rawFlushLocked" || x[1] == "(*Stream).sendPacketLocked" {
 			// single-caller helpers: part of the API while they exist
 			if o := a.objOpt(x[0], x[1]); o != nil {
 				api[o] = true
